@@ -24,7 +24,7 @@ def names(rng, n, prefix, pool=None):
 
 
 class Scenario:
-    def __init__(self, n, c, k, sensors, seed=0, transcendental=False, pool=None, linear=False, branchy=False, share_reading=False, rational=False, assumptions=False):
+    def __init__(self, n, c, k, sensors, seed=0, transcendental=False, pool=None, linear=False, branchy=False, share_reading=False, rational=False, assumptions=False, nonsmooth=False):
         rng = random.Random(seed * 7919 + n * 131 + c * 17 + k * 5 + sum(sensors))
         self.rng = rng
         self.n, self.c, self.k, self.sensors = n, c, k, list(sensors)
@@ -51,6 +51,10 @@ class Scenario:
                 e = e + coef() * a * b
                 if transcendental:
                     e = e + sympy.sin(a) * b
+                if nonsmooth:
+                    # sign-sensitive terms (quadratic drag, magnitude readings): rewrites valid only for positive symbols change
+                    # the value for negative inputs
+                    e = e + coef() * sympy.sqrt(a**2) * a + sympy.sqrt(b**2) * 2 + sympy.sqrt((a - b) ** 2)  # |a|*a, 2|b|, |a-b| in a form whose derivatives sympy can print as C
                 if rational:
                     # powers in denominators (printer precedence: mu/r**2 is not mu/r*r), negative and fractional powers
                     e = e + coef() * a / b**2 - coef() / a**3 + coef() * b / (a**2 + 1)
@@ -70,6 +74,8 @@ class Scenario:
                 e = sympy.Integer(0)
                 for v in obs:
                     e = e + coef() * v + (0 if linear else coef() * v * v)
+                if nonsmooth and obs:
+                    e = e + sympy.sqrt(obs[0] ** 2) * 3 + sympy.sqrt(obs[-1] ** 2)
                 sm[r] = e
             # adversarial insertion orders: expressions in shuffled order, noise in REVERSE sorted reading-name order
             self.sensor_models[sname] = sm
